@@ -38,6 +38,8 @@ pub struct Init {
     pub mono: i128,
     /// stream `smmock`: answer HTTP requests from this in-process mock server instead of the script
     pub mock: Option<Rc<crate::streams::mock::ServerCfg>>,
+    /// the enumeration of attempt-outcome sequences: the first unit's check gets exactly these update-check outcomes
+    pub force_uc: Option<(VecDeque<HttpOutcome>, usize)>,   // outcomes, number of apps the good body offers an update for
 }
 
 fn opt_pick(rng: &mut Rng, xs: &[&str]) -> Option<String> {
@@ -127,7 +129,7 @@ pub fn gen_init(rng: &mut Rng) -> Init {
         uver: [1, 2, 3, 4], osver,
         url: if rng.chance(1, 25) { "http://exa mple.com/".into() } else { rng.pick(&["http://example.com/svc?x=1", "https://omaha.example:8443/"]).to_string() },
         cup: if rng.chance(1, 2) { Some((*rng.pick(&[1u64, 42]), rng.below(3) as usize)) } else { None },
-        presets, sys, committed, wall, mono, mock: None,
+        presets, sys, committed, wall, mono, mock: None, force_uc: None,
     }
 }
 
@@ -412,6 +414,13 @@ pub fn run_history_opt(rng: &mut Rng, init: Init, nunits: usize, oneshot: bool, 
     for k in 0..nunits {
         let (mut env, path) = gen_unit(rng, &init, &init.presets, oneshot);
         if healthy { for b in env.sfail.iter_mut() { *b = false; } }
+        if k == 0 { if let Some((f, offered)) = &init.force_uc {
+            env.uc = f.clone(); env.during = vec![]; env.sfail = vec![false; 14].into();
+            env.results = (0..*offered).map(|_| match rng.below(5) { 0 => AppRes::Failed(rng.below(3) as u32), 1 => AppRes::Deferred, _ => AppRes::Installed }).collect();
+            env.wake = env.wake.iter().filter(|s| matches!(s, Step::Fire(_))).cloned().collect();
+            if env.wake.is_empty() { env.wake = (0..(if env.next.contains('+') { 2 } else { 1 })).map(Step::Fire).collect(); }
+            if !env.allow.starts_with("ok") { env.allow = "ok(st:0:0)".into(); }
+        } }
         if let Some(cfg) = &init.mock {
             // the installer contract: one result per app the server offers an update for
             let offered = cfg.resp.iter().filter(|r| matches!(r.1, "update" | "urgent" | "invalidurl")).count();
@@ -632,6 +641,49 @@ pub fn run(o: &Opts, rng: &mut Rng) -> Sink {
                 sink.case(c.input, Some(c.class), move || out);
             },
             Err(_) => { sink.bump("gen:panic"); sink.case("mode=panic".into(), None, || "panic".into()); }
+        }
+    }
+    // exhaustive part (C06's quantifier is finite): every sequence of one to three per-attempt outcomes over the nine outcome
+    // kinds, with CUP on and off, as the first check of a machine
+    for cup in [true, false] {
+        let kinds: usize = 9;
+        for len in 1..=3usize {
+            for code in 0..kinds.pow(len as u32) {
+                let mut r = rng.fork();
+                let digits: Vec<usize> = (0..len).map(|i| (code / kinds.pow(i as u32)) % kinds).collect();
+                if !cup && digits.iter().any(|d| *d == 6) { continue; }          // a forged reply needs CUP
+                let res = std::panic::catch_unwind(std::panic::AssertUnwindSafe(|| {
+                    let mut init = gen_init(&mut r);
+                    for (i, a) in init.presets.iter_mut().enumerate() { if a.id.is_empty() { a.id = format!("app-x{}", i); } if a.version == Version::from([0, 0, 0, 0]) { a.version = Version::from([1, 0, 0, 0]); } }
+                    init.name = "updater".into(); init.url = "http://example.com/svc?x=1".into();
+                    init.cup = if cup { Some((42, 1)) } else { None };
+                    init.committed.remove(&b"server_dictated_poll_interval"[..]);
+                    let (okbody, offered) = loop { let b = response_body(&mut r, &init.presets); if b.0.starts_with(b"{\"response\":{") && b.0.len() > 40 { break b; } };
+                    let mk = |d: usize, r: &mut Rng| -> HttpOutcome { match d {
+                        0 => HttpOutcome::Fail { kind: 't', dw: 0, dm: 0 },
+                        1 => HttpOutcome::Fail { kind: 'o', dw: 3 * S, dm: 3 * S },
+                        2 => HttpOutcome::Fail { kind: 'u', dw: 0, dm: 0 },
+                        3 => HttpOutcome::Resp { status: *r.pick(&[301u16, 404, 429]), retry_after: None, body: okbody.clone(), authentic: true, forgery: 0, dw: 1_234_567, dm: 1_234_567 },
+                        4 => HttpOutcome::Resp { status: *r.pick(&[500u16, 503]), retry_after: None, body: vec![], authentic: true, forgery: 0, dw: 0, dm: 0 },
+                        5 => HttpOutcome::Resp { status: *r.pick(&[503u16, 200, 429]), retry_after: Some(b"120".to_vec()), body: okbody.clone(), authentic: true, forgery: 0, dw: 0, dm: 0 },
+                        6 => HttpOutcome::Resp { status: *r.pick(&[200u16, 500]), retry_after: None, body: okbody.clone(), authentic: false, forgery: r.below(6) as u8, dw: 0, dm: 0 },
+                        7 => HttpOutcome::Resp { status: 200, retry_after: None, body: b"{\"response\": truncated".to_vec(), authentic: true, forgery: 0, dw: 0, dm: 0 },
+                        _ => HttpOutcome::Resp { status: 200, retry_after: None, body: okbody.clone(), authentic: true, forgery: 0, dw: 250_000_000, dm: 250_000_000 },
+                    } };
+                    init.force_uc = Some((digits.iter().map(|d| mk(*d, &mut r)).collect(), offered));
+                    let oneshot = r.chance(1, 2);
+                    run_history(&mut r, init, 1, oneshot).0
+                }));
+                match res {
+                    Ok(cases) => for mut c in cases {
+                        c.class = format!("attempts-exhaustive/{}/{}", cup as u8, digits.iter().map(|d| d.to_string()).collect::<String>());
+                        sink.bump("gen:attempts-exhaustive");
+                        let out = c.output;
+                        sink.case(c.input, Some(c.class), move || out);
+                    },
+                    Err(_) => { sink.bump("gen:panic"); sink.case("mode=panic".into(), None, || "panic".into()); }
+                }
+            }
         }
     }
     sink
